@@ -86,13 +86,13 @@ func init() {
 		c := a[0].(*Term)
 		if v, ok := c.BoolVal(); ok {
 			if !v {
-				panic(&pathAbort{"infeasible"})
+				panic(infeasibleAbort())
 			}
 			return nil
 		}
 		r, _, _ := ex.sol.Check(c, nil)
 		if r == Unsat {
-			panic(&pathAbort{"infeasible"})
+			panic(infeasibleAbort())
 		}
 		ex.assume(c)
 		return nil
@@ -185,6 +185,16 @@ func init() {
 	}
 	prims["vImplies"] = func(ex *Exec, fr *Frame, site ssa.Instruction, a []Value) Value {
 		return tImplies(a[0].(*Term), a[1].(*Term))
+	}
+	prims["vRandConcrete"] = func(ex *Exec, fr *Frame, site ssa.Instruction, a []Value) Value {
+		on, _ := a[0].(*Term).BoolVal()
+		ex.hctx["randConcrete"] = on
+		return nil
+	}
+	prims["vTickers"] = func(ex *Exec, fr *Frame, site ssa.Instruction, a []Value) Value {
+		on, _ := a[0].(*Term).BoolVal()
+		ex.hctx["tickersOn"] = on
+		return nil
 	}
 	prims["vNativeSkip"] = func(ex *Exec, fr *Frame, site ssa.Instruction, a []Value) Value {
 		// the native run cannot observe what this harness observes (e.g. arguments of time.After)
